@@ -19,6 +19,10 @@ class PathLimit(Exception):
     pass
 
 
+class SpecAbort(Exception):
+    """A speculative branch (if-merging) cannot be completed without forking."""
+
+
 class PyRaise(Exception):
     """A Python exception propagating through symbolically executed code."""
 
@@ -100,6 +104,8 @@ class PathCtx:
         self.counter = 0
         self.str_defs = {}        # string constant -> defining term (from assumed equalities)
         self.fact_ids = set()     # ids of asserted facts (and of their top-level conjuncts)
+        self.guards = []          # guards of the speculative branches being executed
+        self.speculating = 0
         self.alts = []            # alternative prefixes discovered on this path
         self.trace = []
         self.assume(self.next0 >= 1)
@@ -117,6 +123,15 @@ class PathCtx:
         if isinstance(c, bool):
             c = z3.BoolVal(c)
         if z3.is_true(c):
+            return
+        if self.guards:
+            c = z3.Implies(z3.And(*self.guards) if len(self.guards) > 1 else self.guards[0], c)
+            cid = c.get_id()
+            if cid in self.fact_ids:
+                return
+            self.fact_ids.add(cid)
+            self.pc.append(c)
+            self.solver.add(c)
             return
         if z3.is_eq(c) and c.arg(0).sort() == z3.StringSort():
             a, b = z3.simplify(c.arg(0)), z3.simplify(c.arg(1))
@@ -162,8 +177,21 @@ class PathCtx:
             return True
         if z3.is_false(cond):
             return False
+        if self.speculating:
+            # inside a speculative (to-be-merged) branch: no forking, no decision recorded
+            g = z3.And(*self.guards) if self.guards else z3.BoolVal(True)
+            can_t = self.check(z3.And(g, cond)) != z3.unsat
+            can_f = self.check(z3.And(g, z3.Not(cond))) != z3.unsat
+            if can_t and can_f:
+                raise SpecAbort()
+            if not can_t and not can_f:
+                raise SpecAbort()
+            self.assume(cond if can_t else z3.Not(cond))
+            return can_t
         if self.pos < len(self.decisions):
             d = self.decisions[self.pos]
+            if d == 'M':
+                raise Unsupported('decision replay out of step (merge marker at a fork)')
         else:
             can_t = self.check(cond) != z3.unsat
             can_f = self.check(z3.Not(cond)) != z3.unsat
